@@ -204,6 +204,7 @@ pub fn build_sweep(tier: Tier) -> Vec<IoRun> {
             Pre::Longer(4096),
             Pre::Identical,
             Pre::Garbage,
+            Pre::GarbageKeepMtime,
             Pre::Other(0),
             Pre::Other(100_000),
             Pre::SymlinkToFile(0),
